@@ -69,6 +69,14 @@ Section Statement.
   Proof. intros m name tb id _ Hid. apply lookup_reindex. exact Hid. Qed.
 End Statement.
 
+(* a typed (per-block) variable means the same id-keyed table whether it is read
+   through `.ids/.data` (sorted when there are several blocks) or block by block *)
+Theorem C04_typed_variable_lookup :
+  forall (X : Type) (bs : list (str * table X)) id,
+    NoDup (map fst (flat_map snd (ordered_blocks element_types bs))) ->
+    lookup id (ea_table element_types bs) = lookup id (flat_map snd (ordered_blocks element_types bs)).
+Proof. intros. apply ea_table_lookup. assumption. Qed.
+
 (* the decimal layer under ids, counts and connectivity *)
 Theorem C04_decimal_roundtrip : forall z, parse_Z (print_Z z) = Some z.
 Proof. exact parse_print_Z. Qed.
